@@ -1,7 +1,7 @@
 """Stage-level conformance (binding C): recorded hook events -> PipelineTrace events."""
 from . import common
 
-MODELLED = set(" -~|:!+.',`_=/\\()><^vV")
+MODELLED = set(" -~|:!+.',`_=/\\()><^vV*oOX")
 
 
 class Inexact(Exception):
@@ -30,7 +30,12 @@ def frag(fs):
     if k == "polygon":
         return {"k": "P", "pts": [pt(p) for p in f["pts"]], "cells": cells}
     if k == "circle":
-        return {"k": "C", "c": pt(f["c"]), "r": L8(f["r"]), "cells": cells}
+        return {"k": "C", "c": pt(f["c"]), "r": L8(f["r"]), "f": f["f"], "cells": cells}
+    if k == "mline":
+        if f["sm"]:
+            raise Inexact()
+        return {"k": "M", "s": pt(f["s"]), "e": pt(f["e"]), "b": f["b"],
+                "em": {"Circle": "circle", "OpenCircle": "open_circle", "BigOpenCircle": "big_open_circle"}.get(f["em"], f["em"]), "cells": cells}
     if k == "rect":
         return {"k": "R", "s": pt(f["s"]), "e": pt(f["e"]), "r": L8(f["r"]), "b": f["b"], "cells": cells}
     if k == "ctext":
